@@ -576,6 +576,10 @@ func init() {
 					model.Op{K: model.OpAddBatch, Path: model.PathMap, F: 2, Cs: ct.Of(ct.Q)},
 					model.Op{K: model.OpRemoveBatch, Path: model.PathMapN, F: 3, Rm: ct.Of(ct.Q), Fn: true},
 					model.Op{K: model.OpExchangeBatch, F: 0, Cs: ct.Of(ct.Q), Rm: ct.Of(ct.R1), Fn: true},
+					// batch removal of a relation component WITHOUT a callback (whether the world is locked for the
+					// observers then depends on the implementation's own decision)
+					model.Op{K: model.OpRemoveBatch, Path: model.PathMapN, F: 0, Rm: ct.Of(ct.R1)},
+					model.Op{K: model.OpExchangeBatch, F: 0, Cs: ct.Of(ct.T9), Rm: ct.Of(ct.R1), Init: model.InitNil},
 				)
 				for _, t := range tg[1:] {
 					ops = append(ops,
@@ -614,6 +618,16 @@ func init() {
 			var pre [][]model.Op
 			for _, p := range relPreludes(model.PathMapN)[1:3] {
 				pre = append(pre, append(append([]model.Op{}, regRel...), p...))
+			}
+			// a single kind of observer registered at a time (lock decisions that enumerate event types)
+			for _, ev := range []int{model.EvRemoveRelations, model.EvAddRelations, model.EvRemoveComponents, model.EvAddComponents, model.EvRemoveEntity} {
+				var one []model.Op
+				for i, o := range obs {
+					if o.Event == ev && len(o.Params) == 0 {
+						one = append(one, model.Op{K: model.OpObserve, O: i})
+					}
+				}
+				pre = append(pre, append(one, relPreludes(model.PathMapN)[2]...))
 			}
 			scs = append(scs, &engine.Scenario{
 				Name: "C09-callbacks/relation-observers-only", Cfgs: cfgs([]int{1}, []int{0}, []api.RelMode{api.RelByIdx}, u), Filters: filters, Obs: obs, Slots: 1,
